@@ -26,6 +26,31 @@ def _split_model(line):
     return d
 
 
+def enc_differ(gb, ty, a, b, proto):
+    """None if the two encodings of a value of type ty are the same message up to the ONE freedom an encoder has, the order of
+    the elements of sets and of the entries of maps; else the reason.  Both byte strings are read schema-free as Thrift trees
+    (genref.wire_tree: retained unknown fields included), every scalar is compared exactly, list elements and struct fields in
+    wire order.  A byte string that is no well-formed message is a difference."""
+    if a == b:
+        return None
+    p = genrun.ref_proto(proto)
+    try:
+        k = genref.wire_kind(gb.schema, ty)
+        ta, na = genref.wire_tree(a, p, k)
+        tb, nb = genref.wire_tree(b, p, k)
+    except Exception as e:
+        return 'an encoding is not a well-formed %s message (%r)' % (p, e)
+    if a[na:] != b[nb:]:
+        # (bytes after the message: an argument-type decoder of a keep build retains the stop bytes that follow it, finding F-13a,
+        # and writes them back; they are compared exactly)
+        return 'the bytes after the encoded message differ (%d of %d, %d of %d)' % (na, len(a), nb, len(b))
+    if len(a) != len(b):
+        return 'encoded lengths differ (%d, %d)' % (len(a), len(b))
+    if ta != tb:
+        return 'encoded messages differ beyond the order of set elements / map entries'
+    return None
+
+
 def compare_dec(gb, cfg, tname, proto, impl, model):
     """impl: genrun.Res ; model: dict from _split_model.  -> None or text"""
     ty = ('ref', tname)
@@ -60,17 +85,9 @@ def compare_dec(gb, cfg, tname, proto, impl, model):
             return 'size(): implementation %d, model %d' % (impl.size, model['size'])
         if len(impl.enc) != len(model['enc']):
             return 'encoded length: implementation %d, model %d' % (len(impl.enc), len(model['enc']))
-        if impl.enc != model['enc']:
-            try:
-                a = genref.decode(gb.schema, ty, impl.enc, genrun.ref_proto(proto))[0]
-                b = genref.decode(gb.schema, ty, model['enc'], genrun.ref_proto(proto))[0]
-                if gengen.show(gb.schema, ty, a) != gengen.show(gb.schema, ty, b):
-                    return 'encoded bytes differ (beyond hash-container order)'
-            except Exception:
-                # messages with retained unknown fields do not decode under the reader schema: fall back to the
-                # multiset of bytes (insensitive to the iteration order of hash containers)
-                if sorted(impl.enc) != sorted(model['enc']):
-                    return 'encoded bytes differ'
+        why = enc_differ(gb, ty, impl.enc, model['enc'], proto)
+        if why:
+            return 'encoded bytes: ' + why
     return None
 
 
@@ -95,8 +112,12 @@ def compare(gb, case, impl_line, model_line):
         if got != genrun.canon_nan_text(mm.group(1)):
             return 'Default value: ' + genrun.diff_text(got, genrun.canon_nan_text(mm.group(1)))
         si, sm = mi.group(2).split(' '), mm.group(2).split(' ')
-        if si[0] != sm[0] or (si[0] == 'SIZE' and (si[1] != sm[1] or len(si[3]) != len(sm[3]))):
+        if si[0] != sm[0] or (si[0] == 'SIZE' and si[1] != sm[1]):
             return 'size/encoding of the default: implementation %s, model %s' % (' '.join(si[:2]), ' '.join(sm[:2]))
+        if si[0] == 'SIZE':
+            why = enc_differ(gb, ty, b'' if si[3] == '-' else bytes.fromhex(si[3]), b'' if sm[3] == '-' else bytes.fromhex(sm[3]), proto)
+            if why:
+                return 'encoding of the default: ' + why
         if gb.schema.types[tname]['kind'] == 'struct':
             return compare_dec(gb, cfg, tname, proto, genrun.Res(mi.group(4)), _split_model(mm.group(3)))
         return None
@@ -208,7 +229,7 @@ def three_way_keep(chk, gb, cases, outs, writer_schema):
             known += 1          # finding F-13a: the code deviates from both specifications there (reported by `evaluate`)
             continue
         if res.kind == 'ok' and res.enc is not None:
-            if len(res.enc) != len(enc) or sorted(res.enc) != sorted(enc):
+            if enc_differ(gb, ty, res.enc, enc, 'binary'):
                 enc_differs += 1
             d = _split_model(mv or '')
             gi, w = genrun.value_text(gb, 'keep', ty, res.debug)
